@@ -6,6 +6,8 @@
 //! `Interpreter` and, in parallel, on one `Transactor`.  Then the target transaction runs
 //!   (a) on a brand-new interpreter over a copy of the storage the history produced,
 //!   (b) on the reused interpreter, (c) on the reused transactor.
+//! Directed pairs run first (`directed_pairs`): reader scripts over every per-transaction derived
+//! field (owner pointer present/absent/moved, contract inputs, balances table, offsets).
 //! Oracle (property text): identical ProgramState / error, receipts, resulting transaction
 //! (outputs, receipts root), storage, final registers and accessible memory.
 //! Predicates: generated predicate programs that probe freshly allocated heap and stack bytes are
@@ -320,7 +322,19 @@ fn pre_state_coq(vm: &Vm) -> String {
         vm.registers()[RegId::HP.to_u8() as usize].min(fuel_vm::consts::VM_MAX_RAM), 0, vm.receipts().len().min(50), vm.bench_storage_slot_cache().len().min(50))
 }
 
-struct Snapshot { regs: Vec<u64>, stack: Vec<u8>, hp: u64 }
+struct Snapshot { regs: Vec<u64>, stack: Vec<u8>, hp: u64, owner: Option<u64>, derived: Vec<(String, String)> }
+
+/// value of a field in the derived `Debug` image of the interpreter (balanced up to the next top-level comma)
+fn debug_field(dbg: &str, name: &str) -> String {
+    let Some(i) = dbg.find(&format!("{name}: ")) else { return "<absent>".into(); };
+    let rest = &dbg[i + name.len() + 2..];
+    let mut depth = 0i32;
+    for (k, c) in rest.char_indices() {
+        match c { '(' | '[' | '{' => depth += 1, ')' | ']' | '}' => { if depth == 0 { return rest[..k].to_string(); } depth -= 1; }
+                  ',' if depth == 0 => return rest[..k].to_string(), _ => {} }
+    }
+    rest.to_string()
+}
 
 /// the state right after initialisation: single-step a CLONE of the instance up to the first instruction
 fn snapshot(vm: &Vm, w: &World, tx: &TxSpec) -> Option<Snapshot> {
@@ -328,8 +342,61 @@ fn snapshot(vm: &Vm, w: &World, tx: &TxSpec) -> Option<Snapshot> {
     p.set_single_stepping(true);
     let st = p.transact(tx.build(w).ok()?).map(|t| *t.state()).ok()?;
     if !matches!(st, ProgramState::RunProgram(_)) { return None; }
-    Some(Snapshot { regs: p.registers().to_vec(), stack: p.memory().stack_raw().to_vec(), hp: p.registers()[RegId::HP.to_u8() as usize] })
+    // the per-transaction derived fields that have no accessor: read from the Debug image
+    let dbg = format!("{p:?}");
+    let owner_s = debug_field(&dbg, "owner_ptr");
+    let owner = owner_s.strip_prefix("Some(").and_then(|x| x.trim_end_matches(')').parse::<u64>().ok());
+    let derived = ["owner_ptr", "context", "input_contracts", "input_contracts_index_to_output_index", "frames", "panic_context", "initial_balances"]
+        .iter().map(|f| (f.to_string(), debug_field(&dbg, f))).collect();
+    Some(Snapshot { regs: p.registers().to_vec(), stack: p.memory().stack_raw().to_vec(), hp: p.registers()[RegId::HP.to_u8() as usize], owner, derived })
 }
+
+/// transactions whose script reads every piece of state initialisation derives from the transaction:
+/// registers, the whole initialised memory (id, base asset, balances table, tx bytes), GM / GTF
+/// selectors, and finally (optionally) `gm GetOwner` + the 32 bytes it points to
+fn reader_scenario(rng: &mut Rng, n_owner_inputs: usize, with_contract: bool, query_owner: bool) -> Scenario {
+    use fuel_asm::{GMArgs, GTFArgs};
+    let assets = vec![AssetId::from(rng.bytes32()), AssetId::from(rng.bytes32()), AssetId::from(rng.bytes32())];
+    let mut world = World::new(GasSchedule::Default, rng.range(1, 60) as u32, assets.clone());
+    let id = fuel_types::ContractId::from(rng.bytes32());
+    world.deploy(ContractDef { id, code: words_to_bytes(&[w32(op::ret(RegId::ONE))]), balances: vec![(assets[1], rng.range(1, 900))], slots: vec![] });
+    let layout = DataLayout::new(rng, &[id], &assets, 0);
+    let (r, t) = (0x20u8, 0x21u8);
+    let mut p: Vec<Instruction> = vec![
+        op::gtf(R_DATA, RegId::ZERO, GTFArgs::ScriptData as u16),
+        op::log(RegId::GGAS, RegId::CGAS, RegId::IS, RegId::SSP),
+        op::log(RegId::SP, RegId::HP, RegId::FP, RegId::BAL),
+        op::log(RegId::PC, RegId::FLAG, RegId::ERR, RegId::OF),
+        op::logd(RegId::ZERO, RegId::ZERO, RegId::ZERO, RegId::SSP),     // everything initialisation wrote
+    ];
+    for sel in [GMArgs::GetChainId, GMArgs::TxStart, GMArgs::BaseAssetId, GMArgs::GetGasPrice] {
+        p.push(op::gm(r, sel as u32 as u32)); p.push(op::log(r, RegId::ZERO, RegId::ZERO, RegId::ZERO));
+    }
+    for sel in [GTFArgs::Type, GTFArgs::ScriptGasLimit, GTFArgs::TxInputsCount, GTFArgs::TxOutputsCount, GTFArgs::TxWitnessesCount, GTFArgs::ScriptDataLength, GTFArgs::TxLength, GTFArgs::PolicyTypes] {
+        p.push(op::gtf(r, RegId::ZERO, sel as u16)); p.push(op::log(r, RegId::ZERO, RegId::ZERO, RegId::ZERO));
+    }
+    // the last input is always a coin: its type, amount, owner
+    let last = (n_owner_inputs + with_contract as usize - 1) as u32;
+    p.push(op::movi(t, last));
+    p.push(op::gtf(r, t, GTFArgs::InputType as u16)); p.push(op::log(r, t, RegId::ZERO, RegId::ZERO));
+    p.push(op::gtf(r, t, GTFArgs::InputCoinAmount as u16)); p.push(op::log(r, t, RegId::ZERO, RegId::ZERO));
+    p.push(op::gtf(r, t, GTFArgs::InputCoinOwner as u16)); p.push(op::movi(t, 32)); p.push(op::logd(RegId::ZERO, RegId::ZERO, r, t));
+    if with_contract {
+        p.push(op::addi(r, R_DATA, layout.asset_off[1] as u16)); p.push(op::addi(t, R_DATA, layout.call_off[0] as u16));
+        p.push(op::bal(r, r, t)); p.push(op::log(r, RegId::ZERO, RegId::ZERO, RegId::ZERO));
+    }
+    if query_owner {
+        p.push(op::gm(r, GMArgs::GetOwner as u32)); p.push(op::movi(t, 32)); p.push(op::logd(r, RegId::ZERO, r, t));
+    }
+    p.push(op::ret(RegId::ONE));
+    let mut tx = TxSpec::new(words_to_bytes(&p.iter().map(|i| w32(*i)).collect::<Vec<_>>()), layout.bytes.clone(), rng.range(100_000, 900_000));
+    tx.key_seed = rng.next();
+    if with_contract { tx.contract_inputs.push(id); }
+    for k in 0..n_owner_inputs { tx.coins.push((assets[k % 3], rng.range(1, 50_000))); }
+    if rng.bool() { tx.outputs.push(OutSpec::Change(assets[0])); }
+    Scenario { world, tx, layout, units: vec![], seed_note: format!("reader:{}-owner-inputs{}{}", n_owner_inputs, if with_contract { ":contract" } else { "" }, if query_owner { ":GetOwner" } else { "" }) }
+}
+
 
 fn main_case(rng: &mut Rng, idx: usize, out: &mut Out, rt: &tokio::runtime::Runtime, with_model: bool) {
     // target
@@ -340,8 +407,41 @@ fn main_case(rng: &mut Rng, idx: usize, out: &mut Out, rt: &tokio::runtime::Runt
     if rng.chance(1, 6) { cfg.gas_limit = rng.below(3000); }
     if rng.chance(1, 6) { cfg.fault_per_mille = 30; }
     let target = gen_scenario(rng, &cfg);
-    let w = &target.world;
     let history = gen_history(rng, &target);
+    run_pair(rng, idx, out, rt, with_model, target, history);
+}
+
+/// directed pairs: histories and targets that differ in every per-transaction derived field
+/// (owner pointer present / absent / elsewhere, contract inputs and their output indices, balances
+/// table, sizes and offsets, gas limit, block height is the instance's)
+fn directed_pairs(rng: &mut Rng, out: &mut Out, rt: &tokio::runtime::Runtime, with_model: bool, reps: usize) {
+    let mut idx = 100_000;
+    for _ in 0..reps {
+        // (owner inputs, contract input, GetOwner) of history item and of target
+        for (h, t) in [((1, false, true), (2, false, true)), ((2, false, true), (1, false, true)), ((1, true, true), (1, false, true)),
+                       ((1, false, true), (1, true, true)), ((3, true, false), (1, true, true)), ((1, true, true), (3, true, true)),
+                       ((1, false, false), (2, true, true)), ((2, true, true), (2, false, false))] {
+            let target = reader_scenario(rng, t.0, t.1, t.2);
+            let hs = reader_scenario(rng, h.0, h.1, h.2);
+            let mut history = vec![HItem { kind: format!("reader({})", hs.seed_note), tx: hs.tx.clone(), contracts: hs.world.contracts.clone() }];
+            if rng.chance(1, 3) { let e = rng.below(3); history.push(HItem { kind: "dirty-both".into(), tx: dirtier(rng, target.world.assets[0], true, true, e), contracts: vec![] }); }
+            if rng.chance(1, 3) { history.insert(0, HItem { kind: "target-itself".into(), tx: target.tx.clone(), contracts: vec![] }); }
+            run_pair(rng, idx, out, rt, with_model, target, history);
+            idx += 1;
+        }
+        // a grammar target (many owners: no owner pointer) after a single-owner reader, and a reader after a grammar history
+        let mut cfg = GenCfg::default(); cfg.n_contracts = rng.below(3) as usize; cfg.unit_items = 6;
+        let g = gen_scenario(rng, &cfg);
+        let hs = reader_scenario(rng, 1, true, true);
+        run_pair(rng, idx, out, rt, with_model, g.clone(), vec![HItem { kind: format!("reader({})", hs.seed_note), tx: hs.tx.clone(), contracts: hs.world.contracts.clone() }]);
+        let target = reader_scenario(rng, 2, false, true);
+        run_pair(rng, idx + 1, out, rt, with_model, target, vec![HItem { kind: "grammar".into(), tx: g.tx.clone(), contracts: g.world.contracts.clone() }]);
+        idx += 2;
+    }
+}
+
+fn run_pair(rng: &mut Rng, idx: usize, out: &mut Out, rt: &tokio::runtime::Runtime, with_model: bool, target: Scenario, history: Vec<HItem>) {
+    let w = &target.world;
     // session storage: the target's contracts + the contracts of the history scenarios
     let mut session = w.clone();
     for h in &history { for c in &h.contracts { session.deploy(c.clone()); } }
@@ -384,6 +484,9 @@ fn main_case(rng: &mut Rng, idx: usize, out: &mut Out, rt: &tokio::runtime::Runt
         (Some(a), Some(b)) => {
             if a.regs != b.regs || a.stack != b.stack || a.hp != b.hp {
                 out.oracle_fail("post-init-state-depends-on-reuse", "registers / stack / hp right after initialisation differ between a new and a used instance", replay.clone());
+            }
+            for ((f, x), (_, y)) in a.derived.iter().zip(b.derived.iter()) {
+                if x != y { out.oracle_fail(&format!("post-init-{}-depends-on-reuse", f.replace('_', "-")), &format!("{f} right after initialisation: new instance {x}, used instance {y} (history {:?})", hist_kinds), replay.clone()); }
             }
         }
         (None, None) => {}
@@ -442,18 +545,31 @@ fn main_case(rng: &mut Rng, idx: usize, out: &mut Out, rt: &tokio::runtime::Runt
     for (a, v) in ib.non_retryable.iter() { *bal.entry(*a).or_insert(0) += *v; }
     if let Some(r) = ib.retryable.clone() { *bal.entry(*w.params.base_asset_id()).or_insert(0) += Word::from(r); }
     let entries: Vec<String> = bal.iter().enumerate().map(|(i, (a, v))| format!("({}, ({}, {}))", fuel_vm::consts::VM_MEMORY_BALANCES_OFFSET + i * 40, hexrun(a.as_ref()), v)).collect();
+    // the owner pointer by the rule of the specification, re-implemented here: all inputs that have an owner
+    // name the same one => pointer to the first such input's owner field (located by its bytes), else none
+    let expect_owner: Option<u64> = {
+        use fuel_tx::field::Inputs;
+        let owners: Vec<fuel_types::Address> = fresh.transaction().inputs().iter().filter_map(|i| i.input_owner().copied()).collect();
+        match owners.first() {
+            Some(o) if owners.iter().all(|x| x == o) => tx_bytes.windows(32).position(|wd| wd == o.as_ref()).map(|p| (w.tx_offset() + p) as u64),
+            _ => None,
+        }
+    };
+    if expect_owner != sn.owner {
+        out.oracle_fail("owner-pointer-not-as-specified", &format!("owner_ptr after initialisation {:?}, expected {:?}", sn.owner, expect_owner), replay.clone());
+    }
     let tx_id = &sn.stack[0..32];
     let contract_idx: Vec<String> = (0..target.tx.contract_inputs.len()).map(|i| (i + 1).to_string()).collect();
     let io: Vec<String> = (0..target.tx.contract_inputs.len()).map(|i| format!("({i},{i})")).collect();
     let script_off = <Script as fuel_tx::field::Script>::script_offset_static();
     let runs = stack_runs(&sn.stack);
     let coq = format!(
-        "{{| rc_tx := {{| f_id := {}; f_size := {}; f_bytes := {}; f_gas := Some {}; f_script_off := Some {}; f_contracts := {}; f_io := {} |}};\n    rc_params := {{| p_base := {}; p_max_inputs := {}; p_tx_offset := {} |}}; rc_height := {}; rc_balances := {};\n    rc_pre := [{};\n      {}];\n    rc_regs := {}; rc_stack_len := {}; rc_stack_runs := {}; rc_hp := {} |}}",
-        hexrun(tx_id), tx_bytes.len(), hexrun(&tx_bytes), gas_limit, script_off, coq_list(&contract_idx), coq_list(&io),
+        "{{| rc_tx := {{| f_id := {}; f_size := {}; f_bytes := {}; f_gas := Some {}; f_script_off := Some {}; f_contracts := {}; f_io := {}; f_owner := {} |}};\n    rc_params := {{| p_base := {}; p_max_inputs := {}; p_tx_offset := {} |}}; rc_height := {}; rc_balances := {};\n    rc_pre := [{};\n      {}];\n    rc_regs := {}; rc_stack_len := {}; rc_stack_runs := {}; rc_hp := {}; rc_owner := {} |}}",
+        hexrun(tx_id), tx_bytes.len(), hexrun(&tx_bytes), gas_limit, script_off, coq_list(&contract_idx), coq_list(&io), coq_opt(expect_owner.map(|x| x.to_string())),
         hexrun(w.params.base_asset_id().as_ref()), w.params.tx_params().max_inputs(), w.tx_offset(), w.block_height, coq_list(&entries),
         pre_f, pre_u,
         coq_list(&sn.regs.iter().map(|x| x.to_string()).collect::<Vec<_>>()), sn.stack.len(),
-        coq_list(&runs.iter().map(|(o, b)| format!("({}, {})", o, hexrun(b))).collect::<Vec<_>>()), sn.hp);
+        coq_list(&runs.iter().map(|(o, b)| format!("({}, {})", o, hexrun(b))).collect::<Vec<_>>()), sn.hp, coq_opt(sn.owner.map(|x| x.to_string())));
     out.push(Case {
         coq,
         json: json!({"case": idx, "history": hist_kinds, "schedule": w.schedule.name(), "target_state": of.state.split('(').next().unwrap_or(""), "receipts": of.receipts.len(),
@@ -504,6 +620,11 @@ fn run_c31(args: &Args, out: &mut Out) {
     {
         let mut crng = Rng::new(0xF9);
         for _ in 0..3 { stale_debugger_case(&mut crng, out, None); }
+    }
+    // directed pairs on the per-transaction derived state (owner pointer, contract inputs, balances, offsets)
+    {
+        let mut drng = Rng::new(args.seed ^ 0xD3);
+        directed_pairs(&mut drng, out, &rt, !args.oracle_only, if args.thorough() { 40 } else { 2 });
     }
     let n = args.scale(200, 5000);
     // Coq elaborates the byte strings of a case in ~1.5 s: the model replays a prefix of the cases, the oracle sees all
